@@ -87,6 +87,11 @@ func (c *cg) expr(e ast.Expr) string {
 		}
 		return "(" + c.expr(x.X) + " " + op + " " + c.expr(x.Y) + ")"
 	case *ast.UnaryExpr:
+		if x.Op == token.AND {
+			if _, ok := x.X.(*ast.CompositeLit); ok {
+				return c.expr(x.X)
+			}
+		}
 		if x.Op != token.NOT {
 			return c.fail("operator %s", x.Op)
 		}
@@ -113,6 +118,32 @@ func (c *cg) expr(e ast.Expr) string {
 		return c.fail("identifier %s", x.Name)
 	case *ast.CompositeLit:
 		// T{k1: v1, k2: v2}: calls["lit:T"] = "constructor k1 k2" gives the Lean function and the order of its arguments
+		if cfg, ok := c.s.calls["optlit:"+exprText(x.Type)]; ok {
+			// a message literal whose fields are all optional: an absent field is `none`
+			parts := strings.Fields(cfg)
+			vals := map[string]string{}
+			for _, el := range x.Elts {
+				kv, ok := el.(*ast.KeyValueExpr)
+				if !ok {
+					return c.fail("positional composite literal of %s", exprText(x.Type))
+				}
+				vals[exprText(kv.Key)] = c.expr(kv.Value)
+			}
+			out := "(" + parts[0]
+			seen := 0
+			for _, k := range parts[1:] {
+				if v, ok := vals[k]; ok {
+					out += " (some " + v + ")"
+					seen++
+				} else {
+					out += " none"
+				}
+			}
+			if seen != len(vals) {
+				return c.fail("composite literal of %s has unknown fields %v", exprText(x.Type), vals)
+			}
+			return out + ")"
+		}
 		cfg, ok := c.s.calls["lit:"+exprText(x.Type)]
 		if !ok {
 			return c.fail("composite literal of %s", exprText(x.Type))
@@ -225,6 +256,21 @@ func (c *cg) stmts(list []ast.Stmt, k func(ind string) string, ind string) strin
 	case *ast.ReturnStmt:
 		return ind + c.ret(s)
 	case *ast.AssignStmt:
+		// `x, err := call` followed by `if err != nil { ... }`: a match on the call's result
+		if len(s.Lhs) == 2 && len(s.Rhs) == 1 && exprText(s.Lhs[1]) == "err" && len(list) > 1 {
+			if ifs, ok := list[1].(*ast.IfStmt); ok && ifs.Init == nil && ifs.Else == nil && exprText(ifs.Cond) == "err != nil" {
+				x, ok := s.Lhs[0].(*ast.Ident)
+				if !ok {
+					return ind + c.fail("assignment to %s", exprText(s.Lhs[0]))
+				}
+				call := c.expr(s.Rhs[0])
+				c.s.locals["err"] = true
+				errT := c.stmts(ifs.Body.List, nil, ind+"  ")
+				c.s.locals[x.Name] = true
+				okT := c.stmts(list[2:], k, ind+"  ")
+				return ind + "match " + call + " with\n" + ind + "| .error err =>\n" + errT + "\n" + ind + "| .ok " + leanIdent(x.Name) + " =>\n" + okT
+			}
+		}
 		// the let scopes over the continuation, so translate the rhs first, then the rest
 		if len(s.Lhs) != 1 || len(s.Rhs) != 1 {
 			return ind + c.fail("multi-assignment")
@@ -257,6 +303,21 @@ func (c *cg) stmts(list []ast.Stmt, k func(ind string) string, ind string) strin
 		}
 		return ind + c.fail("statement %s", txt)
 	case *ast.IfStmt:
+		if a, ok := s.Init.(*ast.AssignStmt); ok && len(a.Lhs) == 2 && len(a.Rhs) == 1 && exprText(a.Lhs[1]) == "err" &&
+			exprText(s.Cond) == "err != nil" && s.Else == nil {
+			x, ok := a.Lhs[0].(*ast.Ident)
+			if !ok {
+				return ind + c.fail("if-init statement")
+			}
+			call := c.expr(a.Rhs[0])
+			c.s.locals["err"] = true
+			errT := c.stmts(s.Body.List, nil, ind+"  ")
+			name := "_"
+			if x.Name != "_" {
+				name = leanIdent(x.Name) // scoped to the if statement in Go; not used after it
+			}
+			return ind + "match " + call + " with\n" + ind + "| .error err =>\n" + errT + "\n" + ind + "| .ok " + name + " =>\n" + rest(ind+"  ")
+		}
 		pre := ""
 		if s.Init != nil {
 			a, ok := s.Init.(*ast.AssignStmt)
@@ -399,6 +460,12 @@ func ctxSpec(recv, name, lean, binders, ret, mode string, exprs map[string]strin
 		ignore: []string{"c.Debug(", "c.Fail("}}
 }
 
+func pfSpec(recv, lean, binders string, exprs map[string]string) *fnSpec {
+	return &fnSpec{file: "artifact.go", recv: recv, name: "ProtoFile", lean: lean, binders: binders, ret: "Except Pgs.Bytes RespFile", mode: "err", exprs: exprs,
+		calls: map[string]string{"cleanGeneratorFileName": "cleanGeneratorFileName", "proto.String": "id",
+			"optlit:plugin_go.CodeGeneratorResponse_File": "RespFile.mk Name InsertionPoint Content"}}
+}
+
 func codeSpecs() []*fnSpec {
 	return []*fnSpec{
 		// C11
@@ -408,6 +475,13 @@ func codeSpecs() []*fnSpec {
 			calls: map[string]string{"filepath.IsAbs": "Pgs.FilePath.isAbs", "filepath.Clean": "Pgs.FilePath.clean", "filepath.ToSlash": "toSlashUnix",
 				"strings.HasPrefix": "hasPrefix", "errors.New": "id"},
 			doc: " (GOOS=linux: `ToSlash` is the identity)"},
+		// C10 / C11 / C14: the six generator artifacts' ProtoFile
+		pfSpec("GeneratorFile", "generatorFile_ProtoFile", "(name contents : Pgs.Bytes)", map[string]string{"f.Name": "name", "f.Contents": "contents"}),
+		pfSpec("GeneratorTemplateFile", "generatorTemplateFile_ProtoFile", "(name : Pgs.Bytes) (render : Except Pgs.Bytes Pgs.Bytes)", map[string]string{"f.Name": "name", "f.render()": "render"}),
+		pfSpec("GeneratorAppend", "generatorAppend_ProtoFile", "(fileName contents : Pgs.Bytes)", map[string]string{"f.FileName": "fileName", "f.Contents": "contents"}),
+		pfSpec("GeneratorTemplateAppend", "generatorTemplateAppend_ProtoFile", "(fileName : Pgs.Bytes) (render : Except Pgs.Bytes Pgs.Bytes)", map[string]string{"f.FileName": "fileName", "f.render()": "render"}),
+		pfSpec("GeneratorInjection", "generatorInjection_ProtoFile", "(fileName insertionPoint contents : Pgs.Bytes)", map[string]string{"f.FileName": "fileName", "f.InsertionPoint": "insertionPoint", "f.Contents": "contents"}),
+		pfSpec("GeneratorTemplateInjection", "generatorTemplateInjection_ProtoFile", "(fileName insertionPoint : Pgs.Bytes) (render : Except Pgs.Bytes Pgs.Bytes)", map[string]string{"f.FileName": "fileName", "f.InsertionPoint": "insertionPoint", "f.render()": "render"}),
 		// C09
 		{file: "proto.go", recv: "Syntax", name: "SupportsRequiredPrefix", lean: "syntax_SupportsRequiredPrefix", binders: "(s : Pgs.Bytes)", ret: "Bool",
 			exprs: map[string]string{"s": "s", "Proto2": "Pgs.Generated.syntaxProto2"}},
@@ -689,6 +763,8 @@ func genCode(repo string) (string, error) {
 	b.WriteString("structure TypeEnv where\n  isMap : Bool\n  isRepeated : Bool\n  isEmbed : Bool\n  isEnum : Bool\n  keyScalar : Pgs.Bytes\n  elType : Pgs.Bytes\n  embedName : Pgs.Bytes\n  enumName : Pgs.Bytes\n  scalar : Pgs.Bytes\n  hasPresence : Bool\n")
 	b.WriteString("structure ElemEnv where\n  isEnum : Bool\n  isEmbed : Bool\n  enumName : Pgs.Bytes\n  embedName : Pgs.Bytes\n  scalar : Pgs.Bytes\n\n")
 	b.WriteString("def toSlashUnix (p : Pgs.Bytes) : Pgs.Bytes := p\n")
+	b.WriteString("/-- plugin_go.CodeGeneratorResponse_File -/\n")
+	b.WriteString("structure RespFile where\n  name : Option Pgs.Bytes\n  insertionPoint : Option Pgs.Bytes\n  content : Option Pgs.Bytes\n")
 	b.WriteString("/-- the struct literals of build_context.go: a prefixContext is (parent, debugger); the debugger is the list of its prefixes -/\n")
 	b.WriteString("def mkPrefixContext (parent : Pgs.C18.Ctx) (d : List Pgs.Bytes) : Pgs.C18.Ctx := .pre parent d\n")
 	b.WriteString("def mkDirContext (pc : Pgs.C18.Ctx) (p : Pgs.Bytes) : Pgs.C18.Ctx := match pc with | .pre parent d => .dir parent p d | c => c\n")
